@@ -527,7 +527,7 @@ func runSync(c *core.Ctx, pool *gjs.Pool) bool {
 				files["observed.txt"] = "0:" + histKey(prefix) + "|" + strings.Join(o[:minInt(d+1, len(o))], ";") + ";\n"
 				files["scenario.json"] = fmt.Sprintf("{\"primitive\":%q,\"history\":%q,\"executor\":%q,\"sync_observed\":%q}\n", cf.Prim, describe(cf, h, d), side.name, strings.Join(g[:d+1], ";"))
 				col.fail(&failure{group: group, rank: len(prefix), keys: keys, files: files,
-					summary: fmt.Sprintf("nosync.%s (%s) after [%s]: %s %s, but package sync / the specification: %s", cf.Prim, side.name, describe(cf, h, d-1), op.String(), className(got), className(refAt(p, g, d)))})
+					summary: fmt.Sprintf("nosync.%s (%s) after [%s]: %s %s; the specification requires: %s (package sync on this history: %s)", cf.Prim, side.name, describe(cf, h, d-1), op.String(), className(got), className(want), className(refAt(p, g, d)))})
 			}
 			if sampled < 2 && i == 1 && strings.Contains(strings.Join(p.ref[0], ";"), "3") && strings.Contains(strings.Join(p.ref[0], ";"), "2") {
 				sampled++
